@@ -48,7 +48,9 @@ func SharedRun(w *World, rng *rand.Rand, ty string, ch, roFrames, wFrames, R, W,
 	total := roFrames + W*wFrames
 	root := w.filledRoot(ty, ch, total)
 	if isFloatTy(ty) { // NaN, infinities, negative zero among the shared samples (read-only use must not "repair" them)
-		w.WriteFloats(root, w.floatsFor(rng, ch*roFrames))
+		fs := w.floatsFor(rng, ch*roFrames)
+		fs[rng.Intn(len(fs))] = oddFloats[1] // NaN
+		w.WriteFloats(root, fs)
 	}
 	ragged := false
 	if mode == 0 || roFrames < 2 {
@@ -264,6 +266,9 @@ func driveShared(s *shardSet, rng *rand.Rand, thorough bool) ([]string, map[stri
 	extra := map[string]int{}
 	for i := 0; i < n; i++ {
 		ty := types[i%len(types)]
+		if i%4 == 3 {
+			ty = []string{"float64", "float32"}[(i/4)%2]
+		}
 		ch := 1 + rng.Intn(4)
 		R := 1 + rng.Intn(6)
 		W := 1 + rng.Intn(8)
